@@ -688,6 +688,8 @@ class Class(Node):
                             if c is not None:
                                 # Store result for next lookup
                                 self.imports[component_ref.name] = found_comp_ref
+                                if component_ref.child:
+                                    return c._find_class(component_ref.child[0], False)
                                 return c
                             else:
                                 raise ClassNotFoundError
